@@ -133,6 +133,8 @@ def descriptors() -> dict[str, NodeV]:
             node("SchemaCommentProperty", this=lit(Sym("comment", typ="str", truthy=True)))]))]))]))
     d["ALTER TABLE CLUSTER BY"] = node("Alter", "stmt", kind=Const("TABLE"), this=table("T"),
                                        actions=Lst([node("Cluster", expressions=Lst([]))]))
+    d["ALTER TABLE SET TAG"] = node("Alter", "stmt", kind=Const("TABLE"), this=table("T"),
+                                    actions=Lst([node("AlterSet", tag=Lst([node("EQ", this=node("Column", this=ident("TG")), expression=lit("v"))]))]))
     d["ALTER COLUMN COMMENT"] = node("Alter", "stmt", kind=Const("TABLE"), this=table("T"),
                                      actions=Lst([node("AlterColumn", this=ident("A"), comment=lit("x"))]))
     d["COMMENT ON TABLE"] = node("Comment", "stmt", kind=Const("table"), this=table("T"),
